@@ -28,6 +28,39 @@ CHECKS = {
          "Every listed pair of front-ends (buffered / block-level / one-shot CFB; OFB as encryptor, decryptor, core, byte stream; CTR and BelT core vs byte level; CTS on whole blocks vs plain CBC / raw E; constructors from key bytes vs keyed cipher) is compared byte for byte over configurations x IVs x data x lengths.",
          "Trusted: harness cipher, adapters.", "3/C14"),
 }
+
+CHECKS.update({
+ "C04": ("stateless exhaustive enumeration over carry windows with a backend monitor (counter block fed to E); thorough: complete sweep of all 2^32-1 indices for the 32-bit flavours",
+         "Six flavours x configurations x IVs with the counter field on every carry boundary x block indices in windows around every 256^k and the end x batch sizes generated in one call; the block the harness cipher received must equal layout(IV,i) computed with an independent byte-wise carry chain, and output = input xor E(layout). Thorough sweeps every index of Ctr32BE/LE.",
+         "Trusted: harness cipher call log, reference layout routine (validated on AES-CTR and GOST vectors). 64/128-bit flavours: carry windows only (stated).", "3/C04"),
+ "C06": ("stateless exhaustive enumeration with a backend monitor, IVs placed on both sides of the 2^128 wrap",
+         "BelT-CTR over every 16-byte configuration (incl. the real BelT cipher) x IVs chosen so that E(IV) sits within W of 2^128 and of 0 x offsets x lengths x call forms; output, the exact sequence of counter blocks fed to E, involution and exported state are compared with the reference.",
+         "Trusted: reference (validated against the STB 34.101.31 vector), harness cipher log.", "3/C06"),
+ "C07": ("all compositions (stateless) + deviation-bounded schedules + merged BFS with a singleton-state-per-offset invariant, on the real code",
+         "Every block-oriented entry point: all compositions of n <= 7/9 blocks x call kind, every <= 2/3 split deviations on 4*PAR+3 blocks, merged BFS over call sizes to 24/64 blocks, and identical inputs under every parallel width (incl. CTS one-shots); bytes and chaining state after every call equal the one-block-at-a-time run / reference.",
+         "Trusted: harness cipher whose permutation is width-independent and whose batch entry points read all inputs before writing; canonical key = (offset, exported state, two-block probe).", "3/C07"),
+ "C08": ("all compositions with empty pieces (stateless) + deviation-bounded cuts + merged BFS over piece lengths, on the real code",
+         "Byte-level stream ciphers and buffered CFB: all compositions of short strings (with empty pieces), every <= 2/3 cut deviations on 3*bs+2 bytes, merged BFS over piece lengths with the singleton-state invariant; one-shot CFB/CFB-8 prefix preservation for every pair of lengths and two continuations.",
+         "Trusted: reference keystream / recurrences; canonical key = (offset, 1.5-block probe).", "3/C08"),
+ "C09": ("merged BFS with a reinstantiate (export/import) action and the singleton-state invariant",
+         "Every IvState type and both buffered CFB types: BFS over {feed, export->fresh instance} with <= 3 cuts; every history continues exactly like the uninterrupted run, the exported value equals the reference public chaining value, encryptor and decryptor export equal values; every byte cut point of buffered CFB.",
+         "Trusted: reference chaining values; canonical key = (offset, exported value, probe).", "3/C09"),
+ "C10": ("merged BFS of the seek/position machine from initial and post-seek states against a random-access reference",
+         "Seven seekable ciphers x configurations x IVs: BFS to depth 3/4 over seeks of five integer types to a boundary alphabet of positions and data calls of boundary lengths; bytes, try_current_pos of all five types, get_block_pos, remaining_blocks and the counter blocks fed to E are checked on every transition.",
+         "Trusted: reference position kept as (block, byte); tolerated try_current_pos window documented.", "3/C10"),
+ "C11": ("merged BFS of the exhaustion machine from states within W blocks of the limit, with a counter-reuse monitor",
+         "Same machine started at limit-k (core positioning + from_core, empty and partially consumed buffer) and fresh; requests ending before/at/after the limit, seeks around and past the end, try_apply_keystream_partial; success iff the request fits, failures leave data and position untouched, remaining_blocks exact, no counter block used for two indices. Three findings that originate in the cipher dependency are listed in known_findings.json.",
+         "Trusted: reference limit arithmetic in (block, byte); harness cipher log as reuse monitor.", "3/C11"),
+ "C15": ("stateless exhaustive enumeration of perturbation positions and differences against the reference and the prescribed difference shape",
+         "Every mode x configuration x position x difference (all single-bit flips for small units): decryption of the perturbed ciphertext equals the reference exactly and the difference to the unperturbed plaintext has the support the definition prescribes; causality both directions; keystream independence of data; backend call shapes equal across data.",
+         "Trusted: non-zero claims only where bijectivity guarantees them (coincidences counted).", "3/C15"),
+ "C16": ("stateless exhaustive enumeration of interleavings of histories on an original, its clone and a third instance",
+         "Every object kind: all h1 (<= 2/3 ops), clone, all h2/h3 (<= 2 ops) and every interleaving, a differently keyed third instance stepping in between; each handle equals a fresh replay; determinism; dropping the clone leaves the original intact; source scan for hidden shared state recorded.",
+         "Trusted: call-granular exploration (no hidden intra-call shared state; scan result in evidence).", "3/C16"),
+ "C17": ("explicit-state exploration of short histories with Debug text as an invariant and drop as a terminal transition (zeroize build)",
+         "Every object kind x 2 keys x 3 IVs x histories to depth 2/3: one Debug string per type; with the repo crates built with zeroize, drop_in_place in zeroed heap storage and a scan for 8-byte windows of IV / exported state / feedback / counters / buffered keystream. The wrapper's buffer_data Debug field (cipher crate) is a known finding.",
+         "Trusted: harness cipher laid out without padding; raw read of the dropped object's storage.", "3/C17"),
+})
 PENDING_REASON = "check not built yet (work in progress; see DESIGN.md section 3)"
 
 checks, na = [], []
